@@ -159,10 +159,11 @@ func H_c09_address() {
 		dom := [...]string{"winlink.org", "WINLINK.ORG", "WinLink.Org", "winlink.ORG"}[symInt(0, 3)]
 		a := AddressFromString(string(call) + "@" + string(dom))
 		symAssert(a.Proto == "" && a.Addr == up, "winlink-domain-stripped-any-case")
-	case 2: // SMTP form
-		a := AddressFromString(string(call) + "@example.com")
-		symAssert(a.Proto == "SMTP" && a.Addr == string(call)+"@example.com", "smtp-form-preserved")
-		symAssert(a.String() == "SMTP:"+string(call)+"@example.com" && AddressFromString(a.String()) == a, "string-form-round-trips")
+	case 2: // SMTP form, including domains that merely contain "winlink.org"
+		dom := [...]string{"example.com", "mywinlink.org", "winlink.org.no", "sub.winlink.org", "WINLINK.ORGA"}[symInt(0, 4)]
+		a := AddressFromString(string(call) + "@" + dom)
+		symAssert(a.Proto == "SMTP" && a.Addr == string(call)+"@"+dom, "smtp-form-preserved")
+		symAssert(a.String() == "SMTP:"+string(call)+"@"+dom && AddressFromString(a.String()) == a, "string-form-round-trips")
 	case 3: // explicit protocol prefix
 		a := AddressFromString("SMTP:" + string(call) + "@example.com")
 		symAssert(a.Proto == "SMTP" && a.Addr == string(call)+"@example.com", "explicit-proto-preserved")
